@@ -279,14 +279,17 @@ def extract_iter(
             # Only inserting new items into the stack trace; since
             # next_inner is in both `items` and `to_unwrap`, remove it
             # from the former (if this is the innermost frame and
-            # next_inner is None, then nothing was queued). Make sure
-            # next_inner is not deeper than the new items (so they can't
-            # prune it), but never move it deeper than the things that
-            # follow it (so that it can still prune them).
+            # next_inner is None, then nothing was queued). The rest
+            # stays exactly as it is, depths included, so that what
+            # next_inner and its successors can prune does not depend
+            # on whether something was inserted in front of them. The
+            # new items go deeper than next_inner instead, so that
+            # they can't prune it, however they are spelled (a frame
+            # is queued at the depth given here, the frames of
+            # anything that needs unwrapping one level further down).
             items = items[:-1]
             if to_unwrap:
-                inner_origin, inner_item, inner_depth = to_unwrap.popleft()
-                to_unwrap.appendleft((inner_origin, inner_item, min(depth, inner_depth)))
+                depth = max(depth, to_unwrap[0][2]) + 1
         for item in reversed(items):
             to_unwrap.appendleft((better_origin(item, None), item, depth))
 
